@@ -424,8 +424,20 @@ def run(tier):
         res = chrun.run(__name__, "h_depfile", [()], timeout=(90 if tier == "quick" else 900), globs=dict(DEPLEN=2 if tier == "quick" else 3), pool=pool)
         chrun.record(ck, res, "depfile writer: un-escaping the entries yields exactly the dependency names", bound=f"one symbolic name <= 2 (quick) / 3 (thorough) chars over {DALPHA!r} next to a fixed name with a space")
         depcex = res.counterexamples[:2]
+        # the markers that survive the filters must be understood by the lexer whatever the file is called
+        resm = chrun.run("vf.props.c10", "h_line_name", [()], timeout=(120 if tier == "quick" else 900), globs=dict(TWIN=False), pool=pool)
+        chrun.record(ck, resm, "line markers: the lexer takes over exactly the quoted file name, for every name (t_PP_DIRECTIVE on a symbolic name)",
+                     bound="all names <= 7 chars without quote / newline, both marker spellings")
     finally:
         pool.shutdown()
+    for shard, args, kw, msg in resm.counterexamples[:2]:
+        body = ("from vf.props import c10\n" f"try:\n    ok = c10.h_line_name(*{list(args)!r}, **{kw!r})\nexcept Exception as e:\n    print(repr(e)); ok = False\nprint(ok)\nsys.exit(0 if ok else 1)\n")
+        pth = ck.write_replay(body)
+        ok, out = ck.run_replay(pth)
+        ck.traces += 1
+        if not ok:
+            raise HarnessError(f"line-marker counterexample did not reproduce: {msg}")
+        ck.violation(f"a line marker with this file name is not understood by the lexer: {msg[:200]}", pth, key=dict(kind="marker-name"))
 
     # replay filter counterexamples: concrete filter run + real backend end to end
     seen = set()
